@@ -362,7 +362,7 @@ def _pow(ctx, case):
         yd = None
     elif pk in ('pow_float', 'pow_npfloat', 'pow_complex'):
         xd = gen.series_data(rng, D, P, xs, 'pos', 'random', cplx)
-        rr = [0.5, 2.5, -1.5, 1.0 / 3][int(rng.integers(4))]
+        rr = [0.5, 2.5, -1.5, 1.0 / 3, 2.00001, 3.000001, 1.000001, 0.999999][int(rng.integers(8))]          # also exponents that are almost, but not, integers
         if pk == 'pow_complex':
             # a complex exponent, also one whose imaginary part is zero (the result is complex all the same: NumPy's x_0 ** (0.5+0j)),
             # then also on negative real base points, where the principal value has an imaginary part
@@ -376,6 +376,8 @@ def _pow(ctx, case):
     elif pk.startswith('rpow'):
         xd = gen.series_data(rng, D, P, xs, 'R', 'random', cplx)
         b = {'rpow_float': 2.5, 'rpow_int': 3, 'rpow_complex': 1.5 + 0.5j}[pk]
+        if pk in ('rpow_float', 'rpow_int') and cplx and rng.random() < 0.5:
+            b = -b                            # a negative Python number as the base of a complex polynomial: the principal value, like NumPy's (-2.5) ** z_0
         if pk == 'rpow_complex' and rng.random() < 0.4:
             b = complex(-2.0, 0.0)            # a negative number given as a complex base: the principal value, log(-2+0j) = log 2 + i pi
         # the base in the spellings NumPy accepts: scalars of lower precision are promoted to the precision of the polynomial (as in
@@ -386,7 +388,7 @@ def _pow(ctx, case):
         elif pk == 'rpow_complex' and rng.random() < 0.4 and b.imag != 0:
             bs = np.complex64(b)
         elif pk == 'rpow_int':
-            bs = [b, np.int16(b), np.uint8(b), float(b)][int(rng.integers(4))]
+            bs = [b, np.int16(b), np.uint8(b) if b >= 0 else np.int8(b), float(b)][int(rng.integers(4))]
         call = lambda x: bs ** x
         mpf = lambda z: mp.exp(z * mp.log(O.num(b)))
         exact = None; yd = None
@@ -404,6 +406,11 @@ def _pow(ctx, case):
             xd *= 1e-20          # a base polynomial of tiny magnitude: log x = log(1e-20) + log(u), nothing singular about it
         ys = xs if pk == 'pow_utpm' else _bcast_partner(rng, xs, P, D, 'bcast')
         yd = gen.series_data(rng, D, P, ys, 'R', 'random', False)
+        if data != 'tiny' and rng.random() < 0.25:
+            # a complex polynomial exponent on a real base, also a negative one (principal value, as for the scalar spelling x ** (2+1j))
+            yd = yd + 1j * gen.series_data(rng, D, P, ys, 'R', 'random', False)
+            if rng.random() < 0.6:
+                xd = -xd
         call = lambda x: x ** UTPM(yd.copy())
         exact = None
     x = UTPM(xd.copy())
